@@ -1,5 +1,5 @@
 """C18 - the builder sees each source line exactly once, in order, then one EOF."""
-from . import parser_rules as pr, line_rules as lr, misc_rules as ms, error_rules as er
+from . import matcher_rules as mr, parser_rules as pr, line_rules as lr, misc_rules as ms, error_rules as er
 
 META = {
     "level": "other",
@@ -26,6 +26,8 @@ def run(rep):
     lr.rule_scanner(rep, "C18.line", "C18.scan")
     lr.rule_token(rep, "C18.token")
     ms.rule_formatter(rep)
+    # what the listing prints per token (position, kind, keyword, text, items) is what the matcher's sink stored
+    mr.rule_sink(rep, "C18.col", "C18.crlf", want=("col", "crlf", "fields"))
     # "delivered or reported": only an identical message (which includes the position) is reported once
     er.rule_cap(rep, "C18.cap")
     # no hidden state: what the property promises for one use must hold for every later use as well
